@@ -22,7 +22,7 @@ RULE = ("real aioftp client <-> server transfers on the virtual-time network; sa
 ASSUMPTIONS = ["REST+STOR/APPE on an existing file overwrites in place from the offset (what tests/test_restart.py fixes); "
                "REST beyond the end pads with NUL bytes when something is written",
                "REST on a missing file is an error (451) on every back end"]
-REQUIRED_MONITORS = ["upload_model", "download_model", "second_session", "reply_after_close"]
+REQUIRED_MONITORS = ["upload_model", "download_model", "second_session", "reply_after_close", "concurrent_readers"]
 ANCHOR_FUNCTIONS = ['server.py:Server.stor.<locals>.stor_worker', 'server.py:Server.retr.<locals>.retr_worker', 'client.py:Client.get_stream', 'common.py:AsyncStreamIterator.__anext__']
 EXHAUSTIVE = {"quick": False, "thorough": False}
 
@@ -201,6 +201,31 @@ async def transfer(net, hyg, plan):
             sz = [i.get("size") for p, i in ls if p.name == "f.bin"]
             if sz != [str(len(want))]:
                 viol.append({"key": "listing-size-differs", "msg": f"{where}: {raw or 'MLSD'} size {sz} expected {len(want)}"})
+        if plan.get("concurrent_readers"):
+            # "every later download on any session": several sessions fetch the file at the same time, interleaved block by
+            # block (small reads, yielding between them)
+            async def fetch(j):
+                cj = aioftp.Client(path_io_factory=aioftp.MemoryPathIO, passive_commands=(plan["passive2"],))
+                await cj.connect("127.0.0.1", 2121)
+                await cj.login()
+                got = bytearray()
+                async with cj.download_stream("/d/f.bin") as sj:
+                    while True:
+                        dj = await sj.read(plan["reads"][0] if plan["reads"][0] > 1 else 100)
+                        if not dj:
+                            break
+                        got += dj
+                        await asyncio.sleep(0.0003 * (j + 1))
+                await cj.quit()
+                return bytes(got)
+            outs = await asyncio.gather(*[fetch(j) for j in range(plan["concurrent_readers"])])
+            mon["concurrent_readers"] = mon.get("concurrent_readers", 0) + 1
+            for j, got in enumerate(outs):
+                if got != want:
+                    viol.append({"key": "downloaded-bytes-differ:concurrent-readers",
+                                 "msg": f"{where}: {plan['concurrent_readers']} sessions downloading the file at the same time: reader {j} "
+                                        f"got {describe(got)} expected {describe(want)} {first_diff(got, want)}"})
+                    break
         await c2.quit()
         if op in ("STOR", "APPE"):
             await c.quit()
@@ -284,6 +309,8 @@ def gen_cases(tier, seed):
                 "backend_delay": rng.choice([0, 0, 0.0007, 0.003]) if bs >= 512 else 0}
         if op == "RETR" and bs >= 7 and rng.random() < 0.3:
             plan["short_reads"] = rng.choice([1, bs // 2, bs - 1, max(1, bs // 8)])
+        if rng.random() < 0.25 and bs >= 7:
+            plan["concurrent_readers"] = rng.choice([2, 2, 3])
         plan["chunks"] = chunks(plan["size"], rng)
         if len(plan["reads"]) and min(plan["reads"]) == 1 and olds + plan["size"] > 5000:
             plan["reads"] = [r if r > 1 else 100 for r in plan["reads"]]
